@@ -5,4 +5,5 @@ CONSTANTS
   CloseFirst = TRUE
   ReadPipeFix = TRUE
   ErrPipeFix = FALSE
+  ReleaseAllFix = TRUE
 INVARIANT Reaped
